@@ -47,6 +47,20 @@ func constOverflow(n *node) error {
 	if n.typ.untyped || !isInt(typ) {
 		return nil
 	}
+	typed := false
+	for i, c := range n.child {
+		if i > 0 && n.action == aShl {
+			break // the type of a shift count is irrelevant
+		}
+		if c.rval.IsValid() && !isConstantValue(c.rval.Type()) {
+			typed = true
+		}
+	}
+	if !typed {
+		// An expression of untyped constants is exact, whatever type its context gives it:
+		// only its final value has to be representable, which is checked at the conversion.
+		return nil
+	}
 	exact := func(c *node) constant.Value {
 		v := c.rval
 		switch t := v.Type(); {
